@@ -46,10 +46,14 @@ GEOM_NOTE = ("Trusted: Coq kernel; extraction + float64 shim; harness/driver tra
 CLAIMS = {
     "C09": dict(
         engine="cli", design_ref="DESIGN.md section 4 C09",
-        technique="Coq: footprint/frame theorem by induction over the run + associativity of max over a total preorder; determinism is definitional in the model and tied to the code by bit-exact replay in rayon pools and across processes (partial)",
+        technique="Coq: footprint/frame theorem by induction over the run + associativity of max over a total preorder (generic, and instantiated in binary64 through Flocq); determinism is definitional in the model and tied to the code by bit-exact replay in rayon pools and across processes (partial)",
         text="Theorems: a run writes only the parameter cells its handles point to, so optimising a clone (fresh cells) leaves the "
              "original and every other replica untouched (any number of steps, any oracle); std::cmp::max is associative on a total "
-             "preorder and every reduction tree over the index-ordered results returns the sequential result.  The optimiser model "
+             "preorder and every reduction tree over the index-ordered results returns the sequential result - also in binary64: the "
+             "order of defined non-NaN scores is total and transitive (Flocq), Ord::max (`if other < self`) is max2 for it and "
+             "never panics.  The states' partial_cmp / == / max (both bracketings) are compared with that model and with the order "
+             "of their scores on triples of variants with equal, ulps-apart, negative and undefined scores; the same optimiser "
+             "object is reused across runs (nothing may carry over).  The optimiser model "
              "is a function of configuration, random stream and state; the code is replayed bit-for-bit against it, replicas are "
              "re-run inside rayon pools of 1,3,8 (thorough: 1..16) threads in reversed order and compared with the sequential run, "
              "and the binary's output files are compared byte-for-byte across thread counts and processes.",
@@ -60,7 +64,9 @@ CLAIMS = {
         technique="Coq proofs about max over a total preorder (best element, prefix monotonicity, error iff no replicas) + vm_compute over regenerated labels + binary vs library replay",
         text="Theorems: the value analyse_state returns is one of the replica results and no replica scores higher; adding a replica "
              "never lowers it; the error outcome occurs iff there are no replicas; each group's label is the name it is requested by "
-             "and its family that of the specification (regenerated tables).  The binary is run for replications 1..k: logged score = "
+             "and its family that of the specification (regenerated tables); in binary64 the element returned has a score >= every "
+             "replica's (float_best_is_max).  The order on the states is compared with the order of their scores (triples of "
+             "variants, incl. negative Lennard-Jones scores).  The binary is run for replications 1..k: logged score = "
              "score of the written JSON = best replica score of the library replay, prefix-monotone, labels/family/shape/copies.",
         note="Trusted: Coq kernel; regeneration (dump + gen.py); the harness's replay of analyse_state (a re-statement of main.rs "
              "lines 96-133, compared with the binary's output on every case); structopt/env_logger text output."),
@@ -99,14 +105,17 @@ CLAIMS = {
         note=GEOM_NOTE + "  acos, sqrt, sin and pi are libm values shared by model and implementation."),
     "C03": dict(
         engine="geom", design_ref="DESIGN.md section 4 C03",
-        technique="Coq proof over the reals (sums over the loops, double-sum exchange) for the weighting; re-description invariance and cutoff coverage by monitor only (partial)",
+        technique="Coq proofs over the reals: sums over the loops and double-sum exchange for the weighting; window independence (permutation of the index window + far-image bound + triangle inequality) for cut potentials; invariance under moving the site by lattice vectors; origin shifts and uncut tails by monitor (partial)",
         text="Theorems (reals, every state): -N*score = sum over unordered pairs of distinct copies in the cell + 1/2 sum over "
              "ordered pairs (copy, image of a copy within 3 shells), the images being exactly the lattice translates of C14; for "
              "an order-independent pair energy that is half the sum over ordered pairs of distinct molecule images - every pair "
-             "once.  The model is compared with the implementation's score (mostly bit-exact).  Monitored, not proved: equality "
-             "with an independent many-shell lattice sum and equal scores for the same crystal with the origin moved by half "
-             "lattice vectors (uncut potential: up to the measured truncation error).  Known finding D14: fixed 3 shells miss "
-             "in-range image pairs in very flat cells.",
+             "once.  For a cut potential with cutoff + 2 rho <= 3 sin(angle) min(a,b) (rho = largest particle offset) the image "
+             "term is the same over ANY window of k >= 3 shells, so the score is the lattice energy of the infinite crystal "
+             "(C03_lj_score_is_infinite_lattice_sum); known finding D14 (3 shells miss in-range pairs in very flat cells) is exactly "
+             "the failure of that condition.  Moving the site by whole lattice vectors (a copy across a cell face) leaves the "
+             "score unchanged exactly (C03_lj_score_site_shift).  The model is compared with the implementation's score (mostly "
+             "bit-exact).  Monitored, not proved: uncut potentials against a many-shell lattice sum (measured truncation error) "
+             "and the origin moved by half lattice vectors.",
         note=GEOM_NOTE + "  powi's multiplication order is unspecified: energies are compared within 1e-12 of the magnitude of their terms."),
     "C13": dict(
         engine="geom", design_ref="DESIGN.md section 4 C13",
